@@ -4,7 +4,7 @@
 # suite shows only the 3 known failures, and the demo fails. Result is written to <outdir>/verify.json.
 set -u
 name=$1; src=$2; extra=${3:-}
-wt=/tmp/seed/verify-wt
+wt=${SEED_WT:-/tmp/seed/verify-wt}
 if [ ! -d $wt ]; then git -C /repo worktree add -q --detach $wt HEAD || exit 2; fi
 cd $wt && git checkout -q --detach $(git -C /repo rev-parse HEAD) && git checkout -q -- . && git clean -fdq -e target
 loc=$(python3 -c "import json,sys; print(json.load(open('$src/meta.json')).get('demo_location','tests/seeded_demo.rs'))")
